@@ -96,6 +96,14 @@ let run_file rtl f =
       List.iter print_event (List.rev (firstn fresh tr));
       let vs = List.sort compare (List.map (fun (p, pr) -> (int_of_nat p, int_of_z pr.pr_value, pr.pr_updater <> None)) w'.w_props) in
       Printf.printf "vals%s\n" (String.concat "" (List.map (fun (p, v, b) -> Printf.sprintf " %d:%d%s" p v (if b then "b" else "")) vs));
+      (* lines starting with '#' are the model's own property checkers: not compared with the implementation *)
+      Printf.printf "#chk c02=%d links=%d%s\n" (if check_c02 fn_std w' then 1 else 0) (if check_links w' then 1 else 0)
+        (match o with
+         | BevEvalAll e when (match w'.w_trace with EvDone None :: _ -> true | _ -> false) ->
+           (match List.assoc_opt e (List.map (fun (a, b) -> (a, b)) w'.w_bevs) with
+             | Some id -> Printf.sprintf " c06=%d" (if check_c06_after_evalall fn_std w' id then 1 else 0)
+             | None -> "")
+         | _ -> "");
       w := w') ops
 
 let () =
